@@ -187,3 +187,39 @@ Proof.
     destruct content as [|x r]; cbn [shape_ok t_class t_num t_cons]; repeat split; cbn [t_class t_num t_cons]; try lia; try assumption; try reflexivity.
   - rewrite Eem in Ebs. apply Ok_inj in Ebs. subst bs. exact Hsp.
 Qed.
+
+(* ---- any well-formed blob without algorithm parameters: the strict reader returns the template *)
+Lemma der_oid_wfb arcs d : oid_wf arcs -> der_oid arcs d -> wfb d = true.
+Proof.
+  intros Hw Hd. destruct (oid_leaf arcs Hw) as (c & Ec & _ & Hwc).
+  destruct arcs as [|a [|b rest]]; try (destruct Hw; fail). destruct Hw as (Ha & Hb & Hr).
+  destruct (encode_oid_der a b rest Ha Hb Hr) as (c' & Ec' & Hc'). rewrite Ec in Ec'. apply Ok_inj in Ec'. subst c'.
+  now rewrite <- (der_oid_unique _ _ _ Hc' Hd).
+Qed.
+Definition wfb_blob (b : blob) : bool :=
+  wfb (kid_rkid (b_key_identifier b)) && wfb (kid_key_info (b_key_identifier b)) && wfb (b_enc_cek b) && wfb (b_enc_content b).
+
+Theorem blob_strict_parse b env kb sc d1 d2 : wf_blob b = true -> wfb_blob b = true ->
+  b_enc_cek_parameters b = None -> b_enc_content_parameters b = None ->
+  KeyIdentifier_pack (b_key_identifier b) = Ok kb -> utf8_encode (b_sid b) = Ok sc ->
+  der_oid (b_enc_cek_algorithm b) d1 -> der_oid (b_enc_content_algorithm b) d2 ->
+  exists ci, blob_pack b env = Ok (ci ++ trailing b env) /\
+    strict_parse ci = Some [cms_tree kb sc (b_enc_cek b) d1 None (if env then b_enc_content b else []) d2 None].
+Proof.
+  intros Hwf Hwb Hp1 Hp2 Ekb Esc Hd1 Hd2. destruct (blob_is_cms b env kb sc d1 d2 Hwf Ekb Esc Hd1 Hd2) as (ci & Ep & Ecms).
+  destruct (blob_roundtrip b env Hwf) as (ci' & Ep' & _ & _ & Hlci). rewrite Ep in Ep'. apply Ok_inj in Ep'.
+  assert (ci' = ci) by (unfold trailing in Ep'; destruct env; [now rewrite !app_nil_r in Ep'|now apply app_inv_tail in Ep']). subst ci'.
+  exists ci. split; [exact Ep|]. rewrite Hp1, Hp2 in Ecms.
+  unfold wfb_blob in Hwb. rewrite !andb_true_iff in Hwb. destruct Hwb as [[[Hwr Hwk] Hwcek] Hwcont].
+  unfold wf_blob in Hwf. rewrite !andb_true_iff in Hwf. destruct Hwf as [[[[[[[Hkid _] _] Ha1] _] _] Ha2] _].
+  destruct (oid_okb_spec _ Ha1) as [Hw1 _]. destruct (oid_okb_spec _ Ha2) as [Hw2 _].
+  pose proof (KeyIdentifier_pack_wfb _ kb Hwr Hwk Ekb) as Hwkb. pose proof (utf8_encode_wfb _ _ Esc) as Hwsc.
+  pose proof (der_oid_wfb _ _ Hw1 Hd1) as Hwd1. pose proof (der_oid_wfb _ _ Hw2 Hd2) as Hwd2.
+  set (T := cms_tree kb sc (b_enc_cek b) d1 None (if env then b_enc_content b else []) d2 None) in *.
+  destruct (nested T) as (bs & Ebs & Hsp).
+  - apply (wf_from_encode _ ci); [|exact Ecms|apply BIG_lt_P126; exact Hlci].
+    unfold T, cms_tree, enveloped_tree, alg_tree, pd_tree, SEQ, SET, CTX, INT, OCT, OID, UTF8, U, tag_wf. cbn [shape_ok t_class t_num t_cons].
+    destruct env; [destruct (b_enc_content b) as [|x r] eqn:Ec|]; cbn [shape_ok t_class t_num t_cons];
+      repeat split; cbn [t_class t_num t_cons]; try lia; try assumption; try reflexivity.
+  - rewrite Ecms in Ebs. apply Ok_inj in Ebs. subst bs. exact Hsp.
+Qed.
